@@ -184,6 +184,9 @@ def main(argv):
                     s.block_integral("S%d_%s" % (q, name), ty)
                 for name, ty in AVERAGES.get(kind, {}).items():
                     s.block_integral("S%d_%s" % (q, name), ty)
+                if kind == "m" and not harm and not axi:
+                    for name, ty in (("intA", 1), ("intBx", 8), ("intBy", 9)):
+                        s.block_integral("S%d_%s" % (q, name), ty)
                 s.clear_blocks()
             # contours along the four outer sides
             W = max(n["x"] for n in p.nodes[:4]); H = max(n["y"] for n in p.nodes[:4])
@@ -300,6 +303,43 @@ def main(argv):
                     sc = max(abs(mv), abs(got), 1e-300)
                     if abs(got - mv) > 4e-15 * sc:
                         ck.obligation_broken("correspondence postint-h: %s of the real heat post-processor vs Model/PostIntH.lean summed in mesh order" % name,
+                                             dict(sequence=seqs[q], impl=[got.real, got.imag], model=[mv.real, mv.imag], files=run.files()))
+                        break
+            # ---- stage B (planar magnetostatics): A.J, int A, energy, coenergy, area, current, int B, volume vs Model/PostIntM.lean
+            if kind == "m" and not harm and not axi and states and not any(m_.get("LamType", 0) > 2 or m_.get("H_c") or m_.get("BH") for m_ in p.blockprops):
+                LC = dict(inches=0.0254, millimeters=0.001, centimeters=0.01, meters=1.0, mils=2.54e-05, microns=1.e-06)[p.units]
+                sol_ = femmio.read_solution(run.solution_path(), "m")
+                rest_ = [l_.split() for l_ in sol_["rest"] if l_.strip()]
+                nlab_ = int(rest_[0][0])
+                recs_ = [(int(r_[0]), float(r_[1])) for r_ in rest_[1:1 + nlab_]]
+                req = ["consts %s %s %s %s" % (d2tok(p.depth * LC), d2tok(LC), d2tok(1.2566370614359173e-6), d2tok(1.e06))]
+                for b_ in p.blockprops:
+                    req.append("mat %s %s %d %s %s %s %s" % (d2tok(b_.get("Mu_x", 1.0)), d2tok(b_.get("Mu_y", 1.0)), b_.get("LamType", 0), d2tok(b_.get("LamFill", 1.0)),
+                                                             d2tok(b_.get("d_lam", 0.0)), d2tok(b_.get("J_re", 0.0)), d2tok(b_.get("Sigma", 0.0))))
+                for li_, l_ in enumerate(p.labels):
+                    cs_, val_ = recs_[li_] if li_ < len(recs_) else (1, 0.0)
+                    req.append("lab %d %d %d %d %s" % (l_["block"], 1 if l_["circ"] >= 0 else 0, 1 if abs(l_["turns"]) > 1 else 0, cs_, d2tok(val_)))
+                req += ["n %s %s %s" % (d2tok(n_[0]), d2tok(n_[1]), d2tok(n_[2])) for n_ in sol_["nodes"]]
+                req += ["e %d %d %d %d" % (int(e_[0]), int(e_[1]), int(e_[2]), int(e_[3])) for e_ in sol_["elements"]]
+                asked = []
+                mtypes = dict(types, intA=1, intBx=8, intBy=9)
+                for q in range(min(len(seqs), len(states))):
+                    for name in ("AJ", "intA", "energy", "coenergy", "area", "current", "intBx", "intBy", "volume"):
+                        req.append("int %d %s" % (mtypes[name], states[q]))
+                        asked.append((q, name))
+                repm, _, _ = vlib.run_lines([mx, "postint-m"], req, timeout=900)
+                for (q, name), rm in zip(asked, repm):
+                    gv = out.get("S%d_%s" % (q, name), [None])
+                    tk_ = rm.split()
+                    if gv[0] is None or len(tk_) != 2 or not tk_[0].startswith("x"):
+                        continue
+                    got = complex(gv[0])
+                    mv = complex(tok2d(tk_[0]), tok2d(tk_[1]))
+                    stats["model_integrals_compared"] = stats.get("model_integrals_compared", 0) + 1
+                    # integrals of signed quantities are compared against the sum of the magnitudes of the per-label values
+                    sc = max(abs(mv), abs(got), sum(abs(v_) for v_ in per.get(name, []) if v_ is not None) if name in per else 0.0, 1e-300)
+                    if not (abs(got - mv) <= 4e-15 * sc):
+                        ck.obligation_broken("correspondence postint-m: %s of the real magnetics post-processor vs Model/PostIntM.lean summed in mesh order" % name,
                                              dict(sequence=seqs[q], impl=[got.real, got.imag], model=[mv.real, mv.imag], files=run.files()))
                         break
             # ---- geometry
